@@ -16,7 +16,8 @@ LEVEL = 'exploration'
 STEP_UNIT = 'producer pulls (successful next()/index productions)'
 CASE_TIMEOUT = 60
 TIERS = {'quick': (300000, 150), 'thorough': (4000000, 1800)}
-PROBES = ['sized_iterable_producer', 'false_reverse_expr',
+PROBES = ['rendered_before_with_other_parameters', 'guard_refused_element',
+          'sized_iterable_producer', 'false_reverse_expr',
           'previous_batches_evaluated', 'unbounded_rendered', 'fault_fired', 'window_past_end',
           'lookahead_probe_reached', 'else_rendered', 'prev_lookback_overpull',
           'lazyseq_len_called', 'start_beyond_stream', 'prev_flag', 'next_flag']
@@ -212,6 +213,22 @@ def gen_case(seed, tier):
     if r.random() < 0.2:
         fail_at = r.randint(1, 20) if not big else r.randint(1, 450)
     case['producer'] = {'kind': kind, 'n': n, 'fail_at': fail_at}
+    # the same cooked template rendered once before, with other (larger)
+    # values of the batch parameters that are given by name
+    case['pre'] = None
+    # (only start / end / size, and only upwards: overlap >= size makes the
+    # batch navigation loop for ever, a C11 matter kept out of the way)
+    byname = [p for p, (how, v) in case['params'].items()
+              if how != 'lit' and p in ('start', 'end', 'size')]
+    if byname and 'overlap' not in case['params'] and r.random() < 0.4:
+        case['pre'] = {p: max(case['params'][p][1], 0) + r.randint(3, 9)
+                       for p in byname}
+    # a security guard that refuses some elements (fault kind guard.deny)
+    case['guard'] = None
+    if r.random() < 0.12:
+        case['guard'] = {'deny': sorted(r.sample(range(0, 12),
+                                                 r.choice([1, 1, 2, 3]))),
+                         'skip': r.random() < 0.7}
     return case
 
 
@@ -230,6 +247,8 @@ def source_of(case):
         a.append('prefix=%s' % case['prefix'])
     if case.get('has_revexpr'):
         a.append('reverse_expr="rv0"')
+    if case.get('guard') and case['guard']['skip']:
+        a.append('skip_unauthorized')
     kind = case['items']
     if case['flag'] == 'previous':
         body = ('P<dtml-var previous-sequence-start-index>-'
@@ -339,8 +358,38 @@ def run_case(case):
             ns['v_' + p] = str(v)
     outcome, out = 'ok', ''
     overrun = False
+    cls = HTML
+    guard = case.get('guard')
+    if guard:
+        from DocumentTemplate.DT_Util import ValidationError
+        deny = set(guard['deny'])
+
+        class Guarded(HTML):
+            def guarded_getattr(self, ob, name, *default):
+                return getattr(ob, name, *default)
+
+            def guarded_getitem(self, ob, index):
+                v = ob[index]
+                if isinstance(index, int) and index in deny:
+                    faults['guard.deny'] = faults.get('guard.deny', 0) + 1
+                    raise ValidationError('element %d refused' % index)
+                return v
+        cls = Guarded
     try:
-        t = HTML(src)
+        t = cls(src)
+        if case.get('pre'):
+            # earlier request on the same template object, own producer
+            c0 = Counter(None if pr['n'] is None else max(pr['n'], 40), None,
+                         10 ** 6)
+            ns0 = dict(ns)
+            ns0['seq'] = ns0['seq2'] = gen(c0, mk)
+            for p_, v_ in case['pre'].items():
+                ns0['v_' + p_] = v_
+            try:
+                t(None, ns0)
+            except BaseException:
+                pass
+            probe('rendered_before_with_other_parameters')
         out = t(None, ns)
         if not isinstance(out, str):
             out = repr(out)
@@ -368,6 +417,8 @@ def run_case(case):
         probe('lazyseq_len_called')
     if 'EMPTY' in out:
         probe('else_rendered')
+    if faults.get('guard.deny'):
+        probe('guard_refused_element')
     if case['flag']:
         probe(case['flag'][:4] + '_flag')
     if kind == 'sized':
@@ -402,6 +453,10 @@ def run_case(case):
         elif c.pulls > bound:
             m = re.search(r'\{(\d+)\}', out)
             step_start = int(m.group(1)) if m else None
+            if step_start is None and displayed_last == 0:
+                # nothing was displayed (every element of the window refused
+                # by the guard): the window start follows from the request
+                step_start = bound_of(case, 0)[2] - size_eff
             ov = P.get('overlap', 0)
             if step_start is not None and ov > size_eff + P.get('orphan', 0) \
                     and c.pulls == step_start + ov:
@@ -414,12 +469,16 @@ def run_case(case):
         if n is None or n > bound or c.fault_fired:
             nontrivial.append(1)
     else:
-        if pr['fail_at'] is None or not c.fault_fired:
+        denied = set(guard['deny']) if guard else set()
+        if guard and not guard['skip'] and any(d < (n or 0) for d in denied):
+            pass        # the refusal propagates: nothing stated
+        elif pr['fail_at'] is None or not c.fault_fired:
             if outcome != 'ok':
                 viol('unbatched', 'unbatched:failed', n=n)
             elif c.pulls != n:
                 viol('unbatched', 'unbatched:pull-count', n=n)
-            elif [i for i, _ in disp] != list(range(n)):
+            elif [i for i, _ in disp] != [i for i in range(n)
+                                          if i not in denied]:
                 viol('unbatched', 'unbatched:not-all-rendered-once', n=n,
                      shown=[i for i, _ in disp])
             elif n == 0 and case['else'] and 'EMPTY' not in out:
@@ -460,6 +519,11 @@ def shrink(case):
         c = copy.deepcopy(case)
         c['extras'].remove(x)
         yield c
+    for k in ('pre', 'guard'):
+        if case.get(k):
+            c = copy.deepcopy(case)
+            c[k] = None
+            yield c
     for k, v in (('flag', None), ('prefix', None), ('else', False),
                  ('items', 'str'), ('src', 'name')):
         if case[k] != v:
